@@ -183,7 +183,7 @@ def c36(c):
         tr, k, cmd = _record(c, mode, mode)
         paths.append(tr)
         n += k
-    tr, k, cmd = _record(c, "random", "random", 24 if thorough else 3, 40 if thorough else 20)
+    tr, k, cmd = _record(c, "random", "random", 24 if thorough else 6, 40 if thorough else 25)
     paths.append(tr)
     _trace_stage(c, "C36", _concat(c, "all", paths), "scripted (every key x sender x validity; DAO; upgrades) + random governance scenarios", cmd, n + k)
     return c.finish(
@@ -220,7 +220,7 @@ def c37(c):
     tr, k, cmd = _record(c, "upgrade", "upgrade")
     paths.append(tr)
     n += k
-    tr, k, cmd = _record(c, "random", "random", 24 if thorough else 3, 40 if thorough else 20)
+    tr, k, cmd = _record(c, "random", "random", 24 if thorough else 6, 40 if thorough else 25)
     paths.append(tr)
     n += k
     tr = _concat(c, "all", paths)
@@ -238,7 +238,7 @@ def c37(c):
              "duplicate inside a message, re-schedule, unsorted pair, height-1 message, foreign sender) with a process restart possible "
              "at every point, from a chain whose stored upgrade height is 2 and from one where it is 0; each replayed on a fresh "
              "PocketCoreApp comparing stored upgrade, process activation map and the real activation predicate on a height grid; plus "
-             "recorded scripted / random scenarios validated by TLC. non-trivial = contains an authenticated upgrade or a restart" % (3 if thorough else 2),
+             "recorded scripted / random scenarios validated by TLC. non-trivial = contains an authenticated upgrade or a restart" % (4 if thorough else 3),
         exhaustive=True)
 
 
